@@ -161,7 +161,13 @@ SemVar(name) ==     \* ordered, so that a variant can be named by its index
                            <<"D", "E", "U", "T", "D", "E", "F", "F", "X", "X">>,
                            <<"D", "E", "U", "T", "D", "E", "F", "F", "X", "X", "X", "X">>,
                            <<"d", "e", "u", "t", "d", "e", "f", "f">>, <<"D", "E", "U", "1", "D", "E", "F", "F">>,
-                           <<"D", "E", "U", "T", "D", "E", "2", "A">> >>
+                           <<"D", "E", "U", "T", "D", "E", "2", "A">>,
+                           \* the branch code (positions 9-11) has its own class test in many implementations
+                           <<"D", "E", "U", "T", "D", "E", "F", "F", "x", "x", "x">>,
+                           <<"D", "E", "U", "T", "D", "E", "F", "F", "X", "X", "x">>,
+                           <<"D", "E", "U", "T", "D", "E", "F", "F", "X", "5", "<MB>">>,
+                           <<"D", "E", "U", "T", "D", "E", "F", "F", "1", "2", "3">>,
+                           <<"D", "E", "U", "T", "D", "E", "F", "f">> >>
     [] name = "AMT"  -> << <<"1", ",">>, <<"a", "b", "c">>, <<>>, <<",", "5">>, <<"1", ",", "2", ",", "3">> >>
     [] name = "AMT0" -> << <<"1", ",">>, <<"a", "b", "c">>, <<>>, <<"0", ",">>, <<"0", ",", "0", "0">>, <<"0", ",", "5">>,
                            <<",", "5">> >>
